@@ -392,6 +392,14 @@ def describe_log(ex, M, ix, log):
             elif inv[d] == 'Feature':
                 de = describe_event(ex, M, ix, cu)
                 tl.append(('bracket',) + tuple(de) if de else ('event', 'scenario'))
+            elif inv[d] == 'ParsingFinished':
+                vs = ex.prog.tables.enum_variants('event::Cucumber<W>')
+                names = vs[ix.Top['ParsingFinished']][2]
+                cnt = {}
+                for nm in ('features', 'parser_errors'):
+                    t_ = z3.simplify(ex.materialize(ex.field_of(cu, ix.Top['ParsingFinished'], names.index(nm), 'usize'), 'usize'))
+                    cnt[nm] = t_.as_long() if z3.is_bv_value(t_) else None
+                tl.append(('event', 'ParsingFinished', cnt['features'], cnt['parser_errors']))
             else:
                 tl.append(('event', inv[d]))
     return tl
@@ -516,6 +524,12 @@ def oracles(world, res):
     # C03 framing over brackets
     if res['done']:
         out['brackets'] = check_framing(tl, spec)
+        if world.parser is not None:
+            # the parser stream of these worlds has no errors: every feature it hands over is counted in ParsingFinished
+            pf = [e for e in tl if e[:2] == ('event', 'ParsingFinished')]
+            handed = len([1 for _, fi in world.parser if fi != 'end'])
+            if len(pf) == 1 and len(pf[0]) >= 4 and pf[0][2] is not None and (pf[0][2], pf[0][3]) != (handed, 0) and out['brackets'] is None:
+                out['brackets'] = 'ParsingFinished reports %s features / %s parser errors, the parser handed over %d features and no error' % (pf[0][2], pf[0][3], handed)
     # C10 (hook automaton)
     if res['done']:
         out['panic-hook-restored'] = None if res['hook'] == 'original' else 'panic hook left %s' % res['hook']
@@ -538,7 +552,7 @@ def check_framing(tl, spec):
     sent = [e for e in tl if e[0] in ('run', 'bracket', 'event', 'error')]
     if sent and sent[-1] != ('run', 'Finished'):
         return 'run-Finished is not the last item of the stream: %s follows it' % (sent[-1],)
-    if len([e for e in sent if e == ('event', 'ParsingFinished')]) > 1:
+    if len([e for e in sent if e[:2] == ('event', 'ParsingFinished')]) > 1:
         return 'more than one ParsingFinished'
     if len([e for e in evs if e[0] == 'run']) != 2:
         return 'run brackets not exactly once'
@@ -647,7 +661,8 @@ def native_timeline(out):
         elif e == 'finished':
             tl.append(('run', 'Finished'))
         elif e.startswith('parsing_finished'):
-            tl.append(('event', 'ParsingFinished'))
+            mpf = re.match(r'parsing_finished\[f=(\d+),.*err=(\d+)\]', e)
+            tl.append(('event', 'ParsingFinished', int(mpf.group(1)) if mpf else None, int(mpf.group(2)) if mpf else None))
         elif e == 'err':
             tl.append(('error',))
         elif m:
